@@ -1,4 +1,213 @@
-/-! Line protocol handler for the `par` domain (stub until the model exists). -/
+import OFCore.Param
+/-! Line protocol for the `par` domain (dated parameters, property C06). Mathlib-free.
+
+```
+par p <entries> <updates> <queries>
+    -> <stage>|<stage>|…          one stage for the initial state and one per update
+       stage = <ord>=<val>,…@<read>,<read>,…   (values_list in list order @ value at each query day)
+             | ERR                               (the update call raised; state unchanged)
+par t <updates> <queries> <tree…>
+    -> <stage>|…   stage = <snap>;<snap>;…  (one snapshot per query day) | ERR
+entries  = - | <ord>:<val>,…            in declaration order; val = <token> | null | expected
+updates  = - | <upd>;…                  upd = [<child>:]<form>:<a>:<b|->:<val|null>
+           form = period | range | open (accepted) | both | pstop | nostart (refused by the code)
+queries  = <lo>..<hi> | <ord> , …
+tree     = P <entries> | S <0|1> <n> (<thr> <rate> <amount> <avg>)×n | N <n> (<name> <tree>)×n
+snap     = none | <token> | <kind>[<t>:<x>,…] | {<name>=<snap>,…}
+```
+Parameter values are opaque tokens (the model is polymorphic in the value type); scale values are
+exact rationals `p/q`. -/
 namespace OFCore.Drv
-def handlePar (_args : List String) : String := "BAD"
+open OFCore.Param
+
+/-! ### parsing -/
+
+def parseRat? (s : String) : Option Rat :=
+  match s.splitOn "/" with
+  | [p] => p.toInt?.map (fun n => (n : Rat))
+  | [p, q] => do
+    let n ← p.toInt?
+    let d ← q.toNat?
+    if d = 0 then none else some (mkRat n d)
+  | _ => none
+
+def showRat (r : Rat) : String := if r.den = 1 then toString r.num else s!"{r.num}/{r.den}"
+
+def allSome {α} : List (Option α) → Option (List α)
+  | [] => some []
+  | none :: _ => none
+  | some a :: r => (allSome r).map (a :: ·)
+
+/-- `- | ord:val,…` with opaque value tokens -/
+def parseItems? (s : String) : Option (List (Int × Item String)) :=
+  if s = "-" then some [] else
+  allSome ((s.splitOn ",").map fun f =>
+    match f.splitOn ":" with
+    | [d, v] => do
+      let d ← d.toInt?
+      if v = "expected" then pure (d, Item.expected)
+      else if v = "null" then pure (d, Item.value none)
+      else if v = "" then none else pure (d, Item.value (some v))
+    | _ => none)
+
+/-- the same with rational values (scale fields) -/
+def parseRatItems? (s : String) : Option (List (Int × Item Rat)) := do
+  let its ← parseItems? s
+  allSome (its.map fun (d, it) =>
+    match it with
+    | .expected => some (d, Item.expected)
+    | .value none => some (d, Item.value none)
+    | .value (some v) => (parseRat? v).map fun r => (d, Item.value (some r)))
+
+/-- an update call as the harness issues it -/
+structure Call where
+  child  : Option String
+  period : Option (Int × Int)
+  start  : Option Int
+  stop   : Option Int
+  v      : Option String
+
+def parseCall? (withChild : Bool) (s : String) : Option Call := do
+  let fs := s.splitOn ":"
+  let (child, fs) ← (if withChild then
+      match fs with | c :: r => some (some c, r) | [] => none
+    else some (none, fs))
+  match fs with
+  | [form, a, b, v] =>
+    let a ← a.toInt?
+    let b ← (if b = "-" then some none else b.toInt?.map some)
+    let v ← (if v = "null" then some none else if v = "" then none else some (some v))
+    match form, b with
+    | "period", some b => pure ⟨child, some (a, b), none, none, v⟩
+    | "range", some b => pure ⟨child, none, some a, some b, v⟩
+    | "open", none => pure ⟨child, none, some a, none, v⟩
+    | "both", some b => pure ⟨child, some (a, b), some a, none, v⟩
+    | "pstop", some b => pure ⟨child, some (a, b), none, some b, v⟩
+    | "nostart", b => pure ⟨child, none, none, b, v⟩
+    | _, _ => none
+  | _ => none
+
+def parseCalls? (withChild : Bool) (s : String) : Option (List Call) :=
+  if s = "-" then some [] else allSome ((s.splitOn ";").map (parseCall? withChild))
+
+def rangeInts (lo hi : Int) : List Int :=
+  (List.range (hi - lo + 1).toNat).map (fun (i : Nat) => lo + Int.ofNat i)
+
+def parseQueries? (s : String) : Option (List Int) := do
+  let parts ← allSome ((s.splitOn ",").map fun f =>
+    match f.splitOn ".." with
+    | [x] => x.toInt?.map ([·])
+    | [lo, hi] => do
+      let lo ← lo.toInt?
+      let hi ← hi.toInt?
+      if hi - lo > 100000 then none else pure (rangeInts lo hi)
+    | _ => none)
+  pure parts.flatten
+
+/-- prefix-notation tree; returns the tree and the unread tokens -/
+partial def parseTree? : List String → Option (PNode String × List String)
+  | "P" :: e :: rest => do
+    let its ← parseItems? e
+    pure (.param (ofData its), rest)
+  | "S" :: m :: n :: rest => do
+    let m ← (if m = "1" then some true else if m = "0" then some false else none)
+    let n ← n.toNat?
+    let rec brs : Nat → List String → Option (List Bracket × List String)
+      | 0, toks => some ([], toks)
+      | k + 1, t :: r :: a :: v :: toks => do
+        let t ← parseRatItems? t
+        let r ← parseRatItems? r
+        let a ← parseRatItems? a
+        let v ← parseRatItems? v
+        let (bs, toks) ← brs k toks
+        pure (⟨ofData t, ofData r, ofData a, ofData v⟩ :: bs, toks)
+      | _, _ => none
+    let (bs, rest) ← brs n rest
+    pure (.scale m bs, rest)
+  | "N" :: n :: rest => do
+    let n ← n.toNat?
+    let rec kids : Nat → List String → Option (List (String × PNode String) × List String)
+      | 0, toks => some ([], toks)
+      | k + 1, name :: toks => do
+        let (c, toks) ← parseTree? toks
+        let (cs, toks) ← kids k toks
+        pure ((name, c) :: cs, toks)
+      | _, _ => none
+    let (cs, rest) ← kids n rest
+    pure (.node cs, rest)
+  | _ => none
+
+/-! ### printing -/
+
+def showVal : Option String → String
+  | some v => v | none => "none"
+
+def showEntries (l : List (Entry String)) : String :=
+  ",".intercalate (l.map fun e => s!"{e.date}={match e.val with | some v => v | none => "null"}")
+
+def showScale (s : ScaleAt) : String :=
+  s.kind.name ++ "[" ++ ",".intercalate (s.rows.map fun (t, x) => s!"{showRat t}:{showRat x}") ++ "]"
+
+partial def showSnap : Snap String → String
+  | .val v => v
+  | .scale s => showScale s
+  | .node cs => "{" ++ ",".intercalate (cs.map fun (k, s) => s!"{k}={showSnap s}") ++ "}"
+
+def showOptSnap : Option (Snap String) → String
+  | some s => showSnap s | none => "none"
+
+/-! ### the two line kinds -/
+
+def stageP (l : List (Entry String)) (qs : List Int) : String :=
+  showEntries l ++ "@" ++ ",".intercalate (qs.map fun d => showVal (pget l d))
+
+def runP (l : List (Entry String)) (calls : List Call) (qs : List Int) : List String :=
+  match calls with
+  | [] => []
+  | c :: rest =>
+    match updateCall l c.period c.start c.stop c.v with
+    | .ok l' => stageP l' qs :: runP l' rest qs
+    | .error _ => "ERR" :: runP l rest qs
+
+def stageT (t : PNode String) (qs : List Int) : String :=
+  ";".intercalate (qs.map fun d => showOptSnap (t.atInstant d))
+
+/-- an update addressed to a direct child of the top node (which must be a parameter) -/
+def updTree (t : PNode String) (c : Call) : Option (Except String (PNode String)) :=
+  match t, c.child with
+  | .node cs, some name =>
+    match cs.lookup name with
+    | some (.param l) =>
+      match updateCall l c.period c.start c.stop c.v with
+      | .ok l' => some (.ok (.node (cs.map fun (k, x) => if k = name then (k, .param l') else (k, x))))
+      | .error e => some (.error e)
+    | _ => none
+  | _, _ => none
+
+def runT (t : PNode String) (calls : List Call) (qs : List Int) : Option (List String) :=
+  match calls with
+  | [] => some []
+  | c :: rest =>
+    match updTree t c with
+    | none => none
+    | some (.ok t') => (runT t' rest qs).map (stageT t' qs :: ·)
+    | some (.error _) => (runT t rest qs).map ("ERR" :: ·)
+
+def handlePar (args : List String) : String :=
+  match args with
+  | ["p", es, us, qs] =>
+    match parseItems? es, parseCalls? false us, parseQueries? qs with
+    | some its, some calls, some qs =>
+      let l := ofData its
+      "|".intercalate (stageP l qs :: runP l calls qs)
+    | _, _, _ => "BAD"
+  | "t" :: us :: qs :: toks =>
+    match parseCalls? true us, parseQueries? qs, parseTree? toks with
+    | some calls, some qs, some (t, []) =>
+      match runT t calls qs with
+      | some stages => "|".intercalate (stageT t qs :: stages)
+      | none => "BAD"
+    | _, _, _ => "BAD"
+  | _ => "BAD"
+
 end OFCore.Drv
